@@ -331,6 +331,11 @@ func c07RunCase(cs *c07Case) *c07Outcome {
 			}
 			if w.step() {
 				spins = 0
+				if w.steps > maxSteps {
+					w.inconclusive = fmt.Sprintf("step limit: %d batches without the history finishing", w.steps)
+					<-launched
+					return finish()
+				}
 				continue
 			}
 			done := false
